@@ -5,7 +5,7 @@ import random
 
 
 def gen_spec(rng: random.Random, resources, depth=3, pool=None, allow_fail=True, allow_ctx=False,
-             allow_nocse=True, counter=None, limits=None, infeasible=0.0, twins=True):
+             allow_nocse=True, counter=None, limits=None, infeasible=0.0, twins=True, allow_all=False):
     pool = pool if pool is not None else []
     counter = counter if counter is not None else [0]
 
@@ -55,7 +55,9 @@ def gen_spec(rng: random.Random, resources, depth=3, pool=None, allow_fail=True,
         k = rng.random()
         n = rng.choice([1, 2, 2, 3, 4])
         children = tuple(rec(d - 1) for _ in range(n))
-        if k < 0.65:
+        if allow_all and k < 0.3:
+            s = (f"a{counter[0]}", "all", rng.choice([0, 0, 1, 2]), children, opts())
+        elif k < 0.65:
             s = (f"n{counter[0]}", "list", rng.randint(0, 1), children, opts())
         elif k < 0.85:
             s = (f"c{counter[0]}", "catch", 0, children[:1], opts())
